@@ -174,6 +174,10 @@ fn wide_alphabet() -> Vec<Sym> {
         };
         v.push(Sym { name: leak(format!("DF{d}(A)")), line: f.hex().into_bytes(), df: Some(d) });
     }
+    // the largest and the smallest non-zero address are addresses like any other
+    v.push(Sym { name: "DF17(FFFFFF)", line: frames::df17(5, 0xFFFFFF, frames::me_ident(4, 3, frames::callsign_codes("ALLONES"))).hex().into_bytes(), df: Some(17) });
+    v.push(Sym { name: "DF4(FFFFFF)", line: frames::df4(0xFFFFFF, frames::ac13_for_alt(9000)).hex().into_bytes(), df: Some(4) });
+    v.push(Sym { name: "DF11(000001)", line: frames::df11(5, 1, 0).hex().into_bytes(), df: Some(11) });
     let df17 = frames::df17(5, B, frames::me_ident(4, 3, frames::callsign_codes("EIN45F"))).hex();
     let df4 = frames::df4(B, frames::ac13_for_alt(9000)).hex();
     let df21 = frames::df21(B, frames::id13_for_squawk(1000), 0).hex();
